@@ -124,13 +124,11 @@ struct World {
   std::deque<CountMeta> metas;
   std::vector<node *> ever;  // every node pointer the library handed out
   int created = 0;
-  bool clean = false;
 
+  // no clean-up here: after an oracle failure the structure may be unsound, the case leaves it alone (the worker re-runs
+  // failing cases in fresh children); a passing case has destroyed everything itself at the end of run()
   World() { g_world = this; }
-  ~World() {
-    g_world = 0;
-    if (clean || std::uncaught_exceptions()) return;  // after an oracle failure the structure may be unsound: leave it
-  }
+  ~World() { g_world = 0; }
   CountMeta *newMeta(int payload, bool clonable, const CountMeta *from) {
     metas.push_back(CountMeta{&kCountVptr, payload, clonable, 0, (int)metas.size(), from});
     return &metas.back();
@@ -853,10 +851,7 @@ static void run(Ctx &c) {
     check_freed(c, w, gone, "final-destroy");
     for (node *p : w.ever) VP_CHECK(c, __asan_address_is_poisoned(p), "not-freed@final-destroy", "a node is still allocated after everything was destroyed");
     for (auto &cm : w.metas) VP_CHECK(c, cm.released == 1, "value-released@final-destroy", "counting value #%d was released %d times by the end of the case, expected once", cm.serial, cm.released);
-    w.clean = true;
   }
-  size_t maxlive = 0;
-  (void)maxlive;
   if (nt) c.nontrivial();
 }
 
